@@ -38,6 +38,7 @@ struct World {
     quiet_views: bool,
     snapshot: Option<MetaStore>,
     recover_floor: Option<u64>,
+    view_cache: Vec<Option<Views>>,   // served views of the current store per limit (one computation per step)
 }
 
 fn code(e: &MetaStoreError) -> String {
@@ -70,7 +71,7 @@ fn parse_ranges(s: &str) -> Option<Vec<Range>> {
 impl World {
     fn new(s: Streams) -> Self {
         World { store: MetaStore::new(false), s, case: 0, ops: vec![], last_epochs: BTreeMap::new(), max_served: BTreeMap::new(),
-                last_global: 0, saw_migration: false, saw_failover: false, panicked: false, quiet_views: false, snapshot: None, recover_floor: None }
+                last_global: 0, saw_migration: false, saw_failover: false, panicked: false, quiet_views: false, snapshot: None, recover_floor: None, view_cache: vec![None, None, None, None] }
     }
     fn new_case(&mut self) {
         self.flush_case_stats();
@@ -248,7 +249,12 @@ impl World {
         self.oracles(&kind, &toks, &obs, &before_store);
     }
 
+    fn views(&mut self, l: usize) -> &Views {
+        if self.view_cache[l].is_none() { self.view_cache[l] = Some(all_views(&self.store, l as u64)); }
+        self.view_cache[l].as_ref().expect("views")
+    }
     fn observe(&mut self) {
+        self.view_cache = vec![None, None, None, None];
         let st = render_store(&self.store);
         self.emit("state".into(), st);
         let chk = MetaStoreQuery_check(&self.store);
@@ -256,9 +262,8 @@ impl World {
         // model-side only: the invariant packages of the theorems are evaluated on the model state
         self.emit("inv".into(), "inv:ok".into());
         if !self.quiet_views {
-            for l in [0u64, 1, 2] {
-                let v = all_views(&self.store, l);
-                let d = fnv(render_all_views(&v).as_bytes());
+            for l in [0usize, 1, 2] {
+                let d = fnv(render_all_views(self.views(l)).as_bytes());
                 self.emit(format!("views {}", l), format!("{}", d));
             }
         }
@@ -327,7 +332,7 @@ impl World {
         }
         // ---- C01: partition in every served view ---------------------------------------------
         for l in [0u64, 1, 2, 3] {
-            let v = all_views(&store, l);
+            let v = { let _ = self.views(l as usize); self.view_cache[l as usize].take().expect("views") };
             for (name, (cv, _)) in v.clusters.iter() {
                 if let Some(why) = check_partition(cv) {
                     let f = if why.contains("has two owners") && kind_is_scale_down(before, kind, toks) { "F3" } else { "" };
@@ -630,17 +635,17 @@ fn main() {
             if w.panicked { break; }
         }
     } else {
-        let (cases, len) = if args.thorough { (4000, 70) } else { (260, 40) };
+        let (cases, len) = if args.thorough { (1500, 60) } else { (220, 40) };
         for _ in 0..cases { run_case(&mut w, &mut g, len); }
         // larger clusters (fewer, longer)
         g.big = true;
-        let big_cases = if args.thorough { 60 } else { 4 };
+        let big_cases = if args.thorough { 20 } else { 3 };
         for _ in 0..big_cases { run_case(&mut w, &mut g, 30); }
         g.big = false;
         // scale chains through the region where destinations already hold their final count
         if args.thorough {
-            run_scale_chain(&mut w, &mut g, 400, &[396, 392, 368, 364, 200, 196, 100, 8, 4]);
-            run_scale_chain(&mut w, &mut g, 800, &[796, 400, 396, 364, 12]);
+            run_scale_chain(&mut w, &mut g, 400, &[396, 368, 364, 200, 100, 8]);
+            run_scale_chain(&mut w, &mut g, 800, &[796, 400]);
         } else {
             run_scale_chain(&mut w, &mut g, 64, &[60, 56, 28, 24, 8, 4, 16, 12]);
         }
